@@ -2,6 +2,7 @@
 package clientx
 
 import (
+	"errors"
 	"context"
 	"net"
 	"runtime"
@@ -151,7 +152,10 @@ func NewSession(kind int, o Options) *Session {
 
 // Do performs one call with the given script. A nil req is passed through as a nil request.
 func (s *Session) Do(req packet.Request, script xport.Script) Outcome {
-	ctx, cancel := context.WithCancel(context.Background())
+	// the caller's context carries a cancellation cause of its own (context.WithCancelCause): what the client reports on
+	// cancellation is still the context's error, not the application's private cause
+	ctx, cancelCause := context.WithCancelCause(context.Background())
+	cancel := func() { cancelCause(errAppCause) }
 	defer cancel()
 	if s.dl > 0 {
 		var c2 context.CancelFunc
@@ -190,6 +194,8 @@ func (s *Session) Do(req packet.Request, script xport.Script) Outcome {
 	out.Events = s.Conn.Events()
 	return out
 }
+
+var errAppCause = errors.New("verif: the application's own reason for cancelling")
 
 // watchdog: 100x the configured total read timeout (at most 20 s, at least 3x) plus 8 s.
 func watchdog(rt time.Duration) time.Duration {
